@@ -29,6 +29,18 @@ fn main() {
         ("replay", "C03") => scan::replay(),
         ("replay", "C05") => c05::replay(),
         ("replay", "C18") => c18::replay(),
+        ("ruletexts", _) => {
+            // rule ASTs (args[2]) -> one line of text per AST (pairs are joined by a tab) in args[3]; only texts the real parser accepts
+            let t = tables::load();
+            let f = std::io::BufReader::new(std::fs::File::open(&args[2]).expect("asts"));
+            let mut out = String::new();
+            util::tlc_vectors(f, |v| {
+                let mut texts = vec![rules::rule_text(&v["rule"], &t)];
+                if v.get("rule2").is_some() { texts.push(rules::rule_text(&v["rule2"], &t)); }
+                if asca::verif::parse_rules(&[asca::RuleGroup::from_rules(texts.clone())]).is_ok() { out.push_str(&texts.join("\t")); out.push('\n'); }
+            }, |_| {});
+            std::fs::write(&args[3], out).unwrap();
+        }
         ("rules", _) => {
             // prints the text of every rule AST on stdin and how the real parser receives it
             let t = tables::load();
